@@ -67,6 +67,8 @@ class UInt(int):
     def __mul__(self, o):
         if is_sym(o):
             return int(self) * o
+        if not isinstance(o, int):
+            return NotImplemented
         return UInt(int(self) * int(o))
     __rmul__ = __mul__
 
